@@ -109,7 +109,7 @@ func maskDocs(mask uint32, n int) []int {
 var c07flags = [][3]bool{{false, false, false}, {true, true, false}, {true, true, true}, {false, false, true}, {true, false, false}}
 
 func c07(c *Ctx) {
-	maxN := c.N(5, 7)
+	maxN := c.N(6, 7)
 	idx := 0
 	c.exh = true
 	for n := 1; n <= maxN; n++ {
@@ -392,7 +392,7 @@ func c07case(c *Ctx, n int, p uint32, chunk uint32) {
 // c07random: larger instances in modes 1025/1026 with random call sequences
 // and preallocation-reuse histories across segments, fields, terms, E, flags.
 func c07random(c *Ctx) {
-	rounds := c.N(32, 320)
+	rounds := c.N(64, 1600)
 	for i := 0; i < rounds; i++ {
 		if !c.Mine(i) {
 			continue
